@@ -21,7 +21,7 @@ from sim.coordinator import PY, Pool, default_workers, zygote_env  # noqa: E402
 from sim.minimise import Minimiser  # noqa: E402
 
 BUDGET = {  # wall-clock budgets in seconds per phase
-    "quick": {"random": 28, "xproc": 160, "crash_jobs": {"C17": 12, "C18": 30}, "sweep_len": 2},
+    "quick": {"random": 24, "xproc": 140, "crash_jobs": {"C17": 12, "C18": 30}, "sweep_len": 2},
     "thorough": {"random": 480, "xproc": 4000, "crash_jobs": {"C17": 10**6, "C18": 10**6}, "sweep_len": 3},
 }
 
